@@ -48,7 +48,8 @@ def main():
         meta.update({"property": prop, "results": results, "repo_head": head.strip()})
         json.dump(meta, open(mp, "w"), indent=1)
         caught = [c for c, r in results.items() if r["rc"] == 1]
-        concrete = [c for c, r in results.items() if r["rc"] == 1 and not any("no-failing-input-found" in l for l in r["lines"] if l.startswith("VIOLATION"))]
+        # concrete: at least one VIOLATION line that does not end in no-failing-input-found
+        concrete = [c for c, r in results.items() if r["rc"] == 1 and any("no-failing-input-found" not in l for l in r["lines"] if l.startswith("VIOLATION"))]
         summary[sid] = "caught by %s (concrete input: %s)" % (caught, concrete) if caught else "MISSED"
         print(sid, "->", summary[sid], flush=True)
     return 0
